@@ -1,4 +1,4 @@
-(* C18K — source tie BY TRANSLATION for the component layer — initializers: config validation = init_valid, constructors, and the scale formulas sqrt(6/fan) / sqrt(2/fan) and the arguments handed to tensor.RandU / RandN / Full = those of init_value.
+(* C18K — source tie BY TRANSLATION for the component layer — initializers: config validation = init_valid, constructors, and the scale formulas sqrt(6/fan) / sqrt(2/fan) and the arguments handed to tensor.RandU / RandN / Full = those of init_value; the random tensor constructors consume exactly one draw per element, in row-major order, from the position the previous constructor left (oracle Model/RandExt.v).
    Statements only (proofs: Proofs/Comp*P.v).  Model/GoComp.v is REGENERATED from /repo's Go sources on every run by
    harness/gox (comp.go): the component layer's own logic — input validators, config validators, constructors, the
    scale formulas of the initializers, the Accuracy counters — as loop-free programs of the imperative language of
@@ -12,9 +12,9 @@
    the same thing.  Closed under the global context. *)
 From Coq Require Import String List ZArith Bool Arith.
 From Qeep Require Import Model.Scalar Model.Nd Model.Fill Model.Data Model.Valid Model.Api Model.Grad Model.Backprop Model.Components Model.Consts Model.DataIR Model.HeapExt Model.CompExt.
-From Qeep Require Model.GoComp.
+From Qeep Require Model.GoComp Model.GoWrap Model.DataExt Model.RandExt.
 From Qeep Require Import Proofs.DataIRP.
-From Qeep Require Proofs.CompValidP Proofs.CompAccP Proofs.CompInitP.
+From Qeep Require Proofs.CompValidP Proofs.CompAccP Proofs.CompInitP Proofs.CompInputP Proofs.CompFcP Proofs.CompTensorP Proofs.DataRandP Proofs.FillP Proofs.NdP.
 Import ListNotations.
 Local Open Scope string_scope.
 
@@ -424,3 +424,87 @@ Theorem init_value_HeNormal_arguments :
   v_randn shape (sconst 0 0) (sqrtOver 2 f) true pos.
 Proof. exact @CompInitP.init_value_HeNormal. Qed.
 Print Assumptions init_value_HeNormal_arguments.
+
+Theorem uniform_fill_consumes_one_draw_per_element_in_row_major_order :
+  forall (A : Type) (SA : Scalar A) (l u : A) (ds : list nat) (pos : nat),
+  exists d : nd A,
+    fill ds (uniformGen l u) pos = Some (d, pos + prodn ds) /\
+    wfnd ds d /\
+    flat d = map (fun k : nat => sadd (smul (srnd false (pos + k)) (ssub u l)) l) (seq 0 (prodn ds)).
+Proof. exact @DataRandP.fill_uniform_rowmajor. Qed.
+Print Assumptions uniform_fill_consumes_one_draw_per_element_in_row_major_order.
+
+Theorem normal_fill_consumes_one_draw_per_element_in_row_major_order :
+  forall (A : Type) (SA : Scalar A) (u s : A) (ds : list nat) (pos : nat),
+  exists d : nd A,
+    fill ds (normalGen u s) pos = Some (d, pos + prodn ds) /\
+    wfnd ds d /\ flat d = map (fun k : nat => sadd (smul (srnd true (pos + k)) s) u) (seq 0 (prodn ds)).
+Proof. exact @DataRandP.fill_normal_rowmajor. Qed.
+Print Assumptions normal_fill_consumes_one_draw_per_element_in_row_major_order.
+
+Theorem uniform_fill_state :
+  forall (A : Type) (SA : Scalar A) (l u : A) (ds : list nat) (pos : nat),
+  fill ds (uniformGen l u) pos =
+  Some
+    (tab ds (fun idx : list nat => sadd (smul (srnd false (pos + NdP.flatIdx ds idx)) (ssub u l)) l),
+     pos + prodn ds).
+Proof. exact @DataRandP.fill_uniform_state. Qed.
+Print Assumptions uniform_fill_state.
+
+Theorem normal_fill_state :
+  forall (A : Type) (SA : Scalar A) (u s : A) (ds : list nat) (pos : nat),
+  fill ds (normalGen u s) pos =
+  Some
+    (tab ds (fun idx : list nat => sadd (smul (srnd true (pos + NdP.flatIdx ds idx)) s) u),
+     pos + prodn ds).
+Proof. exact @DataRandP.fill_normal_state. Qed.
+Print Assumptions normal_fill_state.
+
+Theorem uniformRandomTensor_wrapper_is_the_model_and_advances_the_stream :
+  forall (A : Type) (SA : Scalar A) (fapp : string -> list A -> option A) (fuel depth : nat) 
+    (l u : A) (ds : list nat) (pos : nat),
+  exists t : tensor A,
+    uniformRandomTensor l u ds pos = Some t /\
+    dims t = ds /\
+    data t =
+    tab ds (fun idx : list nat => sadd (smul (srnd false (pos + NdP.flatIdx ds idx)) (ssub u l)) l) /\
+    (exists g l0 : denv,
+       drun fapp nat RandExt.rext GoWrap.w_uniformRandomTensor fuel depth [DF l; DF u; dnats ds] pos =
+       DRet nat [dnats (dims t); emb (data t)] (pos + prodn ds) g l0).
+Proof. exact @DataRandP.w_uniformRandomTensor_run. Qed.
+Print Assumptions uniformRandomTensor_wrapper_is_the_model_and_advances_the_stream.
+
+Theorem normalRandomTensor_wrapper_is_the_model_and_advances_the_stream :
+  forall (A : Type) (SA : Scalar A) (fapp : string -> list A -> option A) (fuel depth : nat) 
+    (u s : A) (ds : list nat) (pos : nat),
+  exists t : tensor A,
+    normalRandomTensor u s ds pos = Some t /\
+    dims t = ds /\
+    data t = tab ds (fun idx : list nat => sadd (smul (srnd true (pos + NdP.flatIdx ds idx)) s) u) /\
+    (exists g l0 : denv,
+       drun fapp nat RandExt.rext GoWrap.w_normalRandomTensor fuel depth [DF u; DF s; dnats ds] pos =
+       DRet nat [dnats (dims t); emb (data t)] (pos + prodn ds) g l0).
+Proof. exact @DataRandP.w_normalRandomTensor_run. Qed.
+Print Assumptions normalRandomTensor_wrapper_is_the_model_and_advances_the_stream.
+
+Theorem consecutive_random_tensors_use_disjoint_draws :
+  forall (A : Type) (SA : Scalar A) (fapp : string -> list A -> option A)
+    (fuel1 depth1 fuel2 depth2 : nat) (l u m s : A) (ds1 ds2 : list nat) (pos : nat),
+  exists (t1 : tensor A) (g1 l1 : denv),
+    uniformRandomTensor l u ds1 pos = Some t1 /\
+    drun fapp nat RandExt.rext GoWrap.w_uniformRandomTensor fuel1 depth1 [DF l; DF u; dnats ds1] pos =
+    DRet nat [dnats (dims t1); emb (data t1)] (pos + prodn ds1) g1 l1 /\
+    (forall (vs : list dval) (pos1 : nat) (g1' l1' : denv),
+     drun fapp nat RandExt.rext GoWrap.w_uniformRandomTensor fuel1 depth1 [DF l; DF u; dnats ds1] pos =
+     DRet nat vs pos1 g1' l1' ->
+     pos1 = pos + prodn ds1 /\
+     (exists (t2 : tensor A) (g2 l2 : denv),
+        normalRandomTensor m s ds2 pos1 = Some t2 /\
+        drun fapp nat RandExt.rext GoWrap.w_normalRandomTensor fuel2 depth2 [DF m; DF s; dnats ds2] pos1 =
+        DRet nat [dnats (dims t2); emb (data t2)] (pos + prodn ds1 + prodn ds2) g2 l2 /\
+        flat (data t1) =
+        map (fun k : nat => sadd (smul (srnd false (pos + k)) (ssub u l)) l) (seq 0 (prodn ds1)) /\
+        flat (data t2) =
+        map (fun k : nat => sadd (smul (srnd true (pos + prodn ds1 + k)) s) m) (seq 0 (prodn ds2)))).
+Proof. exact @DataRandP.uniform_then_normal_draws. Qed.
+Print Assumptions consecutive_random_tensors_use_disjoint_draws.
